@@ -295,6 +295,82 @@ func (t *Rfc6962) subproof(m, lo, hi int, b bool) []tlog.Hash {
 // Proof is PROOF(m, D[n]), the consistency proof between sizes m and n (0 < m <= n).
 func (t *Rfc6962) Proof(m, n int) []tlog.Hash { return t.subproof(m, 0, n, true) }
 
+// ---------------------------------------------------------------- virtual log of identical records
+//
+// A log in which every record has the same content: MTH(D[lo:hi]) then depends only on the
+// LENGTH hi-lo, so the recursive definitions of RFC 6962 section 2.1 (MTH, PATH, PROOF) can be
+// evaluated for every int64 size (up to 2^63-1) without storing the log, memoising on lengths.
+// All arithmetic is overflow-free for 1 <= n <= 2^63-1. Independent of the tlog package.
+
+// VirtualLog is the log record, record, record, ... of unbounded length.
+type VirtualLog struct {
+	Record []byte
+	memo   map[int64]tlog.Hash
+}
+
+func NewVirtualLog(record []byte) *VirtualLog {
+	return &VirtualLog{Record: append([]byte(nil), record...), memo: map[int64]tlog.Hash{}}
+}
+
+// SplitPoint64 is the largest power of two strictly smaller than n (n >= 2), computed without
+// overflow for every n <= 2^63-1 (k < n-k  <=>  2k < n).
+func SplitPoint64(n int64) int64 {
+	k := int64(1)
+	for k < n-k {
+		k *= 2
+	}
+	return k
+}
+
+// Leaf is the leaf hash of every record of the log.
+func (v *VirtualLog) Leaf() tlog.Hash { return RfcLeaf(v.Record) }
+
+// MTH is the Merkle Tree Hash of any n consecutive records (n >= 0).
+func (v *VirtualLog) MTH(n int64) tlog.Hash {
+	if n <= 0 {
+		return RfcEmpty()
+	}
+	if n == 1 {
+		return v.Leaf()
+	}
+	if h, ok := v.memo[n]; ok {
+		return h
+	}
+	k := SplitPoint64(n)
+	h := RfcNode(v.MTH(k), v.MTH(n-k))
+	v.memo[n] = h
+	return h
+}
+
+// Path is PATH(m, D[n]) of RFC 6962 section 2.1.1 (0 <= m < n).
+func (v *VirtualLog) Path(m, n int64) []tlog.Hash {
+	if n == 1 {
+		return nil
+	}
+	k := SplitPoint64(n)
+	if m < k {
+		return append(v.Path(m, k), v.MTH(n-k))
+	}
+	return append(v.Path(m-k, n-k), v.MTH(k))
+}
+
+func (v *VirtualLog) subproof(m, n int64, b bool) []tlog.Hash {
+	if m == n {
+		if b {
+			return nil
+		}
+		return []tlog.Hash{v.MTH(n)}
+	}
+	k := SplitPoint64(n)
+	if m <= k {
+		return append(v.subproof(m, k, b), v.MTH(n-k))
+	}
+	return append(v.subproof(m-k, n-k, false), v.MTH(k))
+}
+
+// Proof is PROOF(m, D[n]) of RFC 6962 section 2.1.2 (0 < m <= n).
+func (v *VirtualLog) Proof(m, n int64) []tlog.Hash { return v.subproof(m, n, true) }
+
 // ---------------------------------------------------------------- independent RFC 9162 verification
 
 // RfcVerifyInclusion is RFC 9162 section 2.1.3.2.
